@@ -165,7 +165,43 @@ def run_case(sc) -> Result:
     return res
 
 
+def enum_core(shard, nshards):
+    """every termination trigger x flavour/state/cleanup of one running coroutine payload x runner (finite core, enumerated completely)"""
+    triggers = []
+    for flv in ALL:
+        for end in (["raise", "KeyError"], ["return", "0"], ["raise", "SystemExit"], ["raise", "GeneratorExit"], ["raise", "CustomBase"]):
+            triggers.append({"kind": "failure", "flavour": flv, "end": end})
+    for flv in ("asyncio", "threading"):
+        triggers.append({"kind": "kbint-raise", "flavour": flv, "end": ["raise", "KeyboardInterrupt"]})
+    triggers += [{"kind": "sigint"}, {"kind": "shutdown"}]
+    idx = 0
+    for runner in ("service", "meta"):
+        for trig in triggers:
+            for vflv in COROUTINE:
+                for state, program in (("sleeping", [["sleep", 600000]]), ("spinning", [["spin", 10000000]]), ("beating", [["beat", 2, 1000000]])):
+                    for cl in ({}, {"sync_ms": 30}, {"sync_ms": 0, "shield_ms": 120}):
+                        if "shield_ms" in cl and vflv != "trio":
+                            continue
+                        idx += 1
+                        if idx % nshards != shard:
+                            continue
+                        payloads = [{"id": 11, "flavour": vflv, "role": "victim", "state": state, "reg": {"how": "pre"}, "program": program,
+                                     "end": ["forever"], "cleanup": dict(cl)},
+                                    {"id": 300, "flavour": "threading", "role": "blocked", "reg": {"how": "pre"}, "program": [["block", 60000]], "end": ["return", "None"]}]
+                        drivers = [[]]
+                        t = dict(trig, at_ms=10)
+                        if trig["kind"] in ("failure", "kbint-raise"):
+                            payloads.append({"id": 1, "flavour": trig["flavour"], "role": "trigger", "reg": {"how": "pre"}, "program": [["sleep", 10]], "end": trig["end"]})
+                        else:
+                            op = trig["kind"] if trig["kind"] == "sigint" else ("shutdown" if runner == "service" else "stop")
+                            drivers.append([{"at_ms": 10, "op": op}])
+                        yield {"runner": runner, "accept_delay": 0.01, "switchinterval": None, "bound_s": BOUND, "linger_ms": 200,
+                               "payloads": payloads, "drivers": drivers, "trigger": t}
+
+
 def tests(tier):
-    t = [TestDef("scenarios", run_case, strategy=scenario(), quick=480, thorough=15000, shards_quick=16, shrink_budget=40, slow=True)]
-    t[0].replay_runs = 10
+    t = [TestDef("scenarios", run_case, strategy=scenario(), quick=400, thorough=15000, shards_quick=16, shrink_budget=40, slow=True),
+         TestDef("exhaustive-core", run_case, enumerate=enum_core, exhaustive=True, shards_quick=16, shards_thorough=16)]
+    for td in t:
+        td.replay_runs = 10
     return t
